@@ -59,12 +59,19 @@ LeadingZeros ==
   \cup {s \o <<48, 101>> \o Zeros(z) \o <<49>> : s \in {<<>>, <<MINUS>>}, z \in {17, 18, 19, 20, 21, 24}}
   \cup {s \o <<49>> \o Zeros(z) : s \in {<<>>, <<MINUS>>}, z \in 17..24}
 
+\* a sign, a second point or a second exponent INSIDE or behind a run of digits, for every total length 8..21 (number routines
+\* switch algorithms by length; every route has to look at every byte)
+Run(k, d0) == [i \in 1..k |-> 49 + ((d0 + i) % 9)]
+Intruders ==
+  {s \o Run(a, 0) \o <<c>> \o Run(b, a) : s \in {<<>>, <<MINUS>>}, c \in {43, 45}, a \in {1, 4, 7, 8, 11, 17}, b \in {0, 1, 3, 10}}
+  \cup {Run(a, 0) \o <<46>> \o Run(b, 3) \o <<c>> \o Run(2, 1) : c \in {46, 43, 45}, a \in {2, 9}, b \in {3, 8}}
+  \cup {Run(a, 0) \o <<101>> \o Run(1, 3) \o <<c>> \o Run(b, 1) : c \in {101, 46, 43, 45}, a \in {5, 12}, b \in {1, 4}}
 ExpSpellings == {<<>>, <<101, 48>>, <<69, 48>>, <<101, 43, 48>>, <<101, 45, 48>>, <<101, 48, 48>>, <<46, 48>>, <<101, 49>>, <<69, 45, 49>>}
 Boundary ==
   {s \o Bytes(m) \o x : s \in {<<>>, <<MINUS>>}, m \in Mags, x \in ExpSpellings}
   \cup {s \o Bytes(m) \o x : s \in {<<>>, <<MINUS>>}, m \in Grid, x \in {<<>>, <<101, 48>>, <<46, 48>>}}
   \cup {<<45, 48>>, <<48, 101, 53>>, <<45, 48, 46, 48>>, <<45, 48, 101, 45, 51>>}
-  \cup LeadingZeros
+  \cup LeadingZeros \cup Intruders
 
 
 Out(l) ==
